@@ -42,6 +42,10 @@ def option_set(draw):
         o["procname"] = draw(st.sampled_from(["prog", "a_b", "x1"]))
     if draw(st.integers(0, 3)) == 0:
         o["default_width32"] = False
+    if draw(st.integers(0, 5)) == 0:
+        o["skip_procedure_headers"] = True
+    if draw(st.integers(0, 5)) == 0:
+        o["string_configs"] = draw(st.dictionaries(st.sampled_from(["A$", "S$", "NM$", "DA$", "DB$()", "P$()"]), st.sampled_from([1, 40, 300]), min_size=1, max_size=2))
     return o
 
 
